@@ -97,6 +97,33 @@ class Kernel:
             self.heap.now = max(self.heap.now, until_ms) if until_ms < 1 << 60 else self.heap.now
         return n
 
+    def heal(self, part=None):
+        """End one partition (or all): bytes held back by it flow again (TCP retransmission succeeds)."""
+        if part is None:
+            self.partitions.clear()
+        elif part in self.partitions:
+            self.partitions.remove(part)
+        for sock in self.net.conns:
+            for s in (sock, sock.peer):
+                if s is None or s.state == 'closed' or not s.rx.held:
+                    continue
+                src = s.peer
+                if src is not None and self.partitioned(src.owner.host, s.owner.host):
+                    continue
+                t = self.now
+                for seg in s.rx.segments:
+                    if seg[0] > self.now:
+                        t = max(t, self.now + self.net.latency(s)) if seg is s.rx.segments[0] else t
+                        seg[0] = t
+                s.rx.last_arrival = t
+                if s.rx.eof_at is not None and s.rx.eof_at > t:
+                    s.rx.eof_at = t
+                s.rx.held = False
+                self.wake(s.owner, t)
+        for t_ in self.tasks:
+            if t_.alive:
+                self.wake(t_, self.now)
+
     def partitioned(self, a, b):
         for p in self.partitions:
             if (a in p) != (b in p):
@@ -115,6 +142,7 @@ class Pipe:
         self.eof_at = None      # arrival time of FIN
         self.reset = False
         self.sent = 0
+        self.held = False
 
     def available(self, now):
         n = 0
@@ -369,6 +397,7 @@ class SimNet:
         if k.partitioned(src.owner.host, dst.owner.host):
             # bytes sent into a partition are held back until it heals (TCP retransmits); modelled as a long delay
             at = max(pipe.last_arrival, k.now + 3_600_000)
+            pipe.held = True
             k.bump('fault:held_by_partition')
         else:
             at = max(pipe.last_arrival, k.now + self.latency(src))
